@@ -338,6 +338,21 @@ def main(argv=None):
             if not samples and evaluations:
                 samples.append(open(impl_path).readline().strip()[:600])
 
+    # (2b) guard of the extraction and the OCaml driver: a sample of the same cases is evaluated by vm_compute
+    # inside coqc (thorough tier, or VERIF_CROSSCHECK=1) for the properties that define coq_crosscheck()
+    cross = None
+    if (not pipeline_err) and hasattr(mod, "coq_crosscheck") and (a.tier == "thorough" or os.environ.get("VERIF_CROSSCHECK")):
+        lines = [l.rstrip("\n") for l in open(impl_path) if " | " in l]
+        step = max(1, len(lines) // int(spec.get("crosscheck_samples", 600)))
+        vsrc = mod.coq_crosscheck(lines[::step])
+        vpath = os.path.join(workdir, "crosscheck.v")
+        open(vpath, "w").write(vsrc)
+        rc, out = sh(["timeout", "1200", "coqc", "-Q", COQ, "JamV", "-w", "-notation-overridden,-deprecated,-ambiguous-paths", vpath], cwd=workdir)
+        ok = rc == 0 and re.search(r"=\s*true", out) is not None and "false" not in out
+        cross = dict(cases=len(lines[::step]), ok=ok)
+        if not ok:
+            pipeline_err = "vm_compute cross-check of the extracted model failed (extraction/driver disagree with the Coq evaluation):\n" + out[-1500:]
+
     # (3) classify
     classify = getattr(mod, "classify", lambda m: None)
     oracle = getattr(mod, "violates", lambda m: True)
@@ -400,6 +415,7 @@ def main(argv=None):
             known_findings_hit=sorted(known_hit.keys()),
             input_distribution=stats,
             replay=bool(a.replay),
+            vm_compute_crosscheck=cross,
         ),
         assumptions=spec.get("assumptions", []) + notes,
         wall_s=round(wall, 2), violations=len(violations),
